@@ -15,6 +15,7 @@ import VaxisModel.Lemmas.EmuBody
 import VaxisModel.Lemmas.EmuBodyRow
 import VaxisModel.Lemmas.EmuBodyPrint
 import VaxisModel.Lemmas.EmuBodyTabs
+import VaxisModel.Lemmas.EmuBodyModes
 
 namespace VaxisModel.Props.C05Bodies
 open VaxisModel.Model.Emu VaxisModel.Model.EmuBody VaxisModel.Lemmas.Emu VaxisModel.Lemmas.EmuBody VaxisModel.Gen
@@ -160,11 +161,37 @@ example : ¬ ((80 : Int) < 0 ∧ (24 : Int) = 0) := by decide
 theorem body_print (e : Emu) (g : G) (w : Nat) :
     evalPrint TermBodies.body_print g (w : Int) e = print Fixes.current e g w := print_body_eq e g w
 
+/-! ### round 3: DECSC / DECRC / RIS, the mode functions (every arm incl. the special ones 5, 7, 1049, 2027) -/
+
+/-- decsc() (esc.go): the saved-cursor record (whole cursor incl. pen and shape, DECAWM, DECOM, the character sets without the
+    single-shift flag) goes to the slot of the screen mode 1049 selects. -/
+theorem body_decsc (e : Emu) : evalBody TermBodies.body_decsc [] [] e = .ok (decsc e) := body_decsc_eq e
+/-- decrc() (esc.go) -/
+theorem body_decrc (e : Emu) : evalBody TermBodies.body_decrc [] [] e = .ok (decrc e) := body_decrc_eq e
+/-- ris() (esc.go): both grids re-allocated at the current size, bottom/right margins, cursor home, character sets, modes, tab stops
+    (and NOT the top margin, the pen or the saved cursors — as the code is). -/
+theorem body_ris (e : Emu) : evalBody TermBodies.body_ris [] [] e = .ok (ris e) := body_ris_eq e
+/-- setDefaultTabStops() (esc.go): the loop constants are folded by the translator; the stops are the model's `defaultTabs`. -/
+theorem body_setDefaultTabStops (e : Emu) :
+    evalBody TermBodies.body_setDefaultTabStops [] [] e = .ok { e with tabs := defaultTabs } := body_setDefaultTabStops_eq e
+/-- sm() / rm() (mode.go): for EVERY parameter list -/
+theorem body_sm (e : Emu) (pm : List Param) : evalBody TermBodies.body_sm pm [] e = .ok (sm e pm) := body_sm_eq e pm
+theorem body_rm (e : Emu) (pm : List Param) : evalBody TermBodies.body_rm pm [] e = .ok (rm e pm) := body_rm_eq e pm
+/-- decset() / decrst() (mode.go): for EVERY parameter list, every arm: the plain flag arms (the generated tables the model
+    looks up), the empty arm 5, arm 7 (DECAWM + pending wrap reset) and arm 1049 (DECSC, alternate screen, ED 2 / ED 2, primary
+    screen, DECRC). -/
+theorem body_decset (e : Emu) (pm : List Param) :
+    evalBody TermBodies.body_decset pm [] e = decset Fixes.current e pm := body_decset_eq e pm
+theorem body_decrst (e : Emu) (pm : List Param) :
+    evalBody TermBodies.body_decrst pm [] e = decrst e pm := body_decrst_eq e pm
+/-- decrqm() (mode.go): every arm only computes the reply; the emulator state is untouched (what the dispatcher of the model assumes). -/
+theorem body_decrqm (e : Emu) (pd : Int) : evalBody TermBodies.body_decrqm [] [pd] e = .ok e := body_decrqm_eq e pd
+
 /-! ### coverage -/
 
 theorem bodies_fully_recognised : (covered.all Body.recognised) = true := by decide
 theorem bodies_wf : (covered.all Body.wf) = true := by decide
-/-- every generated body is covered: each of the 40 translated functions has its `body_<fn>` theorem -/
+/-- every generated body is covered: each of the translated functions has its `body_<fn>` theorem -/
 theorem all_generated_covered : (TermBodies.bodies.all fun b => covered.contains b) = true := by decide
 /-- every covered body is one of the generated ones -/
 theorem covered_generated : (covered.all fun b => TermBodies.bodies.contains b) = true := by decide
